@@ -190,6 +190,105 @@ def mutate(rng, s, seeds):
     return bytes(b for b in s if b != 0)[:600]
 
 
+BUILTIN_CPP = {"v": "void", "w": "wchar_t", "b": "bool", "c": "char", "a": "signed char", "h": "unsigned char",
+               "s": "short", "t": "unsigned short", "i": "int", "j": "unsigned", "l": "long", "m": "unsigned long",
+               "x": "long long", "y": "unsigned long long", "n": "__int128", "o": "unsigned __int128", "f": "float",
+               "d": "double", "e": "long double", "g": "__float128", "z": "..."}
+# operator code -> (C++ token, number of parameters as a member or None = any)
+OP_CPP = {"pl": ("+", 1), "mi": ("-", 1), "ml": ("*", 1), "dv": ("/", 1), "rm": ("%", 1), "an": ("&", 1), "or": ("|", 1),
+          "eo": ("^", 1), "aS": ("=", 1), "pL": ("+=", 1), "mI": ("-=", 1), "mL": ("*=", 1), "dV": ("/=", 1),
+          "rM": ("%=", 1), "aN": ("&=", 1), "oR": ("|=", 1), "eO": ("^=", 1), "ls": ("<<", 1), "rs": (">>", 1),
+          "lS": ("<<=", 1), "rS": (">>=", 1), "eq": ("==", 1), "ne": ("!=", 1), "lt": ("<", 1), "gt": (">", 1),
+          "le": ("<=", 1), "ge": (">=", 1), "nt": ("!", 0), "aa": ("&&", 1), "oo": ("||", 1), "pp": ("++", 0),
+          "mm": ("--", 0), "cm": (",", 1), "pm": ("->*", 1), "cl": ("()", None), "ix": ("[]", 1), "co": ("~", 0),
+          "ps": ("+", 0), "ng": ("-", 0), "ad": ("&", 0), "de": ("*", 0)}
+
+
+def theorem_decls(ctx, n):
+    """declarations of the shape covered by c13_mangle_demangle_partial"""
+    rng = ctx.rng
+    out = []
+    uid = [0]
+
+    def ident(p):
+        uid[0] += 1
+        return "%s%d_%s" % (p, uid[0], "".join(rng.choice("abcXYZ_09") for _ in range(rng.randrange(0, 12))))
+    for _ in range(n):
+        scope = [ident(rng.choice(["ns", "n", "outer"])) for _ in range(rng.randrange(0, 4))]
+        kind = rng.choice(["fn", "fn", "ctor", "dtor", "op"])
+        if kind == "fn" and not scope:
+            scope = [ident("ns")]
+        name = ident("f" if kind == "fn" else "K")
+        if kind == "op":
+            code = rng.choice(sorted(OP_CPP))
+            tok, np = OP_CPP[code]
+            k = np if np is not None else rng.randrange(0, 4)
+            params = [rng.choice("ijlmcahstxybdfew") for _ in range(k)]
+        elif kind == "dtor":
+            params, code = [], None
+        else:
+            params, code = [rng.choice("ijlmcahstxybdfew") for _ in range(rng.randrange(0, 4))], None
+        out.append({"scope": scope, "name": name, "kind": kind, "op": code, "params": params})
+    return out
+
+
+def theorem_corpus(ctx, n):
+    """[(mangled by the Lean `mangle`, qualifiedName by Lean, found among the compiler's symbols?)]"""
+    decls = theorem_decls(ctx, n)
+    lines = []
+    queries = []
+    for d in decls:
+        ps = ", ".join(BUILTIN_CPP[c] for c in d["params"])
+        for s in d["scope"]:
+            lines.append("namespace %s {" % s)
+        if d["kind"] == "fn":
+            lines.append("__attribute__((used)) void %s(%s) { }" % (d["name"], ps))
+            variants = [("fn", "-")]
+        else:
+            lines.append("struct %s {" % d["name"])
+            if d["kind"] == "ctor":
+                lines.append("__attribute__((used)) %s(%s) { }" % (d["name"], ps))
+                variants = [("ctor", "31"), ("ctor", "32")]
+            elif d["kind"] == "dtor":
+                lines.append("__attribute__((used)) ~%s() { }" % d["name"])
+                variants = [("dtor", "31"), ("dtor", "32")]
+            else:
+                lines.append("__attribute__((used)) void operator%s(%s) { }" % (OP_CPP[d["op"]][0], ps))
+                variants = [("op", d["op"].encode().hex())]
+            lines.append("int fld_; };")
+        for s in d["scope"]:
+            lines.append("}")
+        mp = "".join(d["params"]) or "v"
+        for kind, arg in variants:
+            queries.append("mg %s %s %s %s %s" % (kind, arg, mp.encode().hex(), d["name"].encode().hex(),
+                                                  " ".join(s.encode().hex() for s in d["scope"])))
+    src = os.path.join(ctx.scratch, "corpus", "thm.cpp")
+    os.makedirs(os.path.dirname(src), exist_ok=True)
+    open(src, "w").write("\n".join(lines) + "\n")
+    syms = set()
+    for cxx in ("g++", "clang++-14"):
+        if C.sh(["which", cxx]).returncode != 0:
+            continue
+        obj = src[:-4] + "." + cxx + ".o"
+        r = C.sh([cxx, "-std=gnu++17", "-O0", "-w", "-c", src, "-o", obj])
+        if r.returncode != 0:
+            ctx.notes.append("theorem corpus: %s failed: %s" % (cxx, r.stdout[-300:]))
+            continue
+        rr = C.sh(["nm", obj])
+        syms |= {l.split()[-1] for l in rr.stdout.split("\n") if l.split()}
+    res = C.run_model("C13", queries)
+    out = []
+    for q, r in zip(queries, res):
+        parts = r.split()
+        if len(parts) != 2:
+            out.append((q, None, None, False))
+            continue
+        m = bytes.fromhex(parts[0])
+        out.append((q, m, bytes.fromhex(parts[1]).decode(), m.decode() in syms))
+    return out, bool(syms)
+
+
+
 def kind_of_impl(i):
     """implementation verdict -> the model's result vocabulary"""
     if i == "HANG":
@@ -247,6 +346,15 @@ def run(ctx):
     gen = load_gen()
     # ---- (a) compiled corpus: expected results come from the declarations
     comp, cinfo = compiled_corpus(ctx, gen, 2 if quick else 16, 170 if quick else 220, 60 if quick else 200)
+    # ---- (a') declarations of the shape of c13_mangle_demangle_partial: the Lean `mangle` must produce
+    #      exactly the symbols the compilers emit, and `qualifiedName` is the expected result
+    thm, have_cxx = theorem_corpus(ctx, 40 if quick else 400)
+    thm_missing = [q for q, m, e, found in thm if have_cxx and not found]
+    if thm_missing:
+        C.violation(ctx, "mangle", {"kind": "model-compiler-disagreement",
+                                    "what": "the Lean `mangle` of c13_mangle_demangle_partial does not produce the "
+                                            "symbol the installed compilers emit for %d declarations" % len(thm_missing),
+                                    "queries": thm_missing[:5], "theorem": "c13_mangle_demangle_partial"}, True)
     # ---- (b) the repo's own names
     vectors, tnames = repo_names(ctx, tables)
     sysn = system_names(300 if quick else 100000, rng)
@@ -264,6 +372,9 @@ def run(ctx):
 
     for s, e, o in comp:
         add(s, e, "compiled:" + o)
+    for q, m, e, found in thm:
+        if m is not None:
+            add(m, e, "compiled:lean-mangle")
     for s, e in vectors:
         add(s, e, "unit-test")
     for s in tnames:
@@ -286,18 +397,18 @@ def run(ctx):
     weighted = [c[0] for c in cases if c[2].startswith(("compiled", "unit-test"))] * 3 + seeds
     # ---- (c) mutations
     # truncation at every length
-    ntrunc = 30 if quick else 1500
+    ntrunc = 30 if quick else 800
     for s in rng.sample(weighted, min(ntrunc, len(weighted))):
         for k in range(2, len(s)):
             add(s[:k], None, "truncate")
-    nmut = 6000 if quick else 600000
+    nmut = 6000 if quick else 250000
     for _ in range(nmut):
         add(mutate(rng, rng.choice(weighted), seeds), None, "mutate")
     # token soup
-    for _ in range(1500 if quick else 150000):
+    for _ in range(1500 if quick else 60000):
         add(b"_Z" + b"".join(rng.choice(TOKENS) for _ in range(rng.randrange(1, 12))), None, "tokens")
     # ---- (d) random bytes
-    for _ in range(1000 if quick else 100000):
+    for _ in range(1000 if quick else 40000):
         pre = rng.choice([b"_Z", b"_ZN", b"_ZT", b"_GLOBAL__sub_I__Z", b"", b"_"])
         add(pre + bytes(rng.randrange(1, 256) for _ in range(rng.randrange(0, 24))), None, "random")
 
@@ -433,6 +544,7 @@ def run(ctx):
                 "reach the parser (have the _Z prefix)",
         "by_class": dict(by_class),
         "compiled_corpus": dict(cinfo),
+        "lean_mangle_decls": len(thm), "lean_mangle_not_emitted_by_compilers": len(thm_missing),
         "with_expected_result": sum(1 for c in cases if c[1] is not None),
         "impl_not_a_string": sum(1 for i in impls if not is_str(i)),
         "impl_differs_from_repaired_model": sum(1 for i in range(len(cases)) if kind_of_impl(impls[i]) != mout[i]),
